@@ -10,6 +10,7 @@ import (
 	"fmt"
 	"reflect"
 	"sync"
+	"sync/atomic"
 )
 
 type generatorImpl[V any] interface {
@@ -22,6 +23,7 @@ type Generator[V any] struct {
 	impl    generatorImpl[V]
 	strOnce sync.Once
 	str     string
+	label   atomic.Pointer[string] // &str once it is computed; value() may run concurrently with String()
 }
 
 func newGenerator[V any](impl generatorImpl[V]) *Generator[V] {
@@ -33,6 +35,7 @@ func newGenerator[V any](impl generatorImpl[V]) *Generator[V] {
 func (g *Generator[V]) String() string {
 	g.strOnce.Do(func() {
 		g.str = g.impl.String()
+		g.label.Store(&g.str)
 	})
 
 	return g.str
@@ -70,7 +73,12 @@ func (g *Generator[V]) Draw(t *T, label string) V {
 }
 
 func (g *Generator[V]) value(t *T) V {
-	i := t.s.beginGroup(g.str, true)
+	label := ""
+	if p := g.label.Load(); p != nil {
+		label = *p
+	}
+
+	i := t.s.beginGroup(label, true)
 	v := g.impl.value(t)
 	t.s.endGroup(i, false)
 	return v
